@@ -359,6 +359,11 @@ pub fn layer(rng: &mut Rng, spec: &TreeSpec) -> LayerSpec {
             if rng.chance(1, 4) {
                 return LayerSpec::NotAny(any_with_empty_member(rng, spec));
             }
+            if rng.chance(1, 6) {
+                // A combinator of no patterns at all (an empty exclusion list): a negation that
+                // discards nothing.
+                return LayerSpec::NotAny(Vec::new());
+            }
             let n = rng.range(1, 3);
             LayerSpec::NotAny((0..n).map(|_| negation(rng, spec)).collect())
         },
